@@ -5,6 +5,7 @@ import (
 	"go/constant"
 	"go/token"
 	"go/types"
+	"regexp"
 	"strings"
 
 	"golang.org/x/tools/go/ssa"
@@ -65,9 +66,18 @@ func frameChecker(r *core.Run, anchor *ssa.Function, chain []ssa.CallInstruction
 				ns[j] = t
 			}
 		}
+		var free map[string]string
+		if mc, ok := call.Common().Value.(*ssa.MakeClosure); ok {
+			free = map[string]string{}
+			for j, fv := range h.FreeVars {
+				if j < len(mc.Bindings) {
+					free[fv.Name()] = strings.TrimPrefix(strings.TrimPrefix(ck.T(mc.Bindings[j]), "~"), "&")
+				}
+			}
+		}
 		subst = ns
 		fn = h
-		ck = &guard.Checker{P: r.P, Fn: fn, Res: r.Resolver(fn), Subst: subst, ArgVals: call.Common().Args, Parent: ck}
+		ck = &guard.Checker{P: r.P, Fn: fn, Res: r.Resolver(fn), Subst: subst, ArgVals: call.Common().Args, Parent: ck, FreeSubst: free}
 	}
 	return ck
 }
@@ -608,7 +618,10 @@ type frame struct {
 	Fn    *ssa.Function
 	Chain []ssa.CallInstruction
 	subst []string
+	free  map[string]string // a function literal's captured variables, as terms of the anchor
 }
+
+var reFreeTok = regexp.MustCompile(`\*?free:(\w+)`)
 
 func frames(r *core.Run, anchor *ssa.Function) []frame {
 	out := []frame{{Fn: anchor}}
@@ -638,7 +651,16 @@ func frames(r *core.Run, anchor *ssa.Function) []frame {
 						ns[j] = t
 					}
 				}
-				out = append(out, frame{Fn: h, Chain: append(append([]ssa.CallInstruction{}, fr.Chain...), c), subst: ns})
+				nf := frame{Fn: h, Chain: append(append([]ssa.CallInstruction{}, fr.Chain...), c), subst: ns}
+				if mc, ok := c.Common().Value.(*ssa.MakeClosure); ok {
+					nf.free = map[string]string{}
+					for i, fv := range h.FreeVars {
+						if i < len(mc.Bindings) {
+							nf.free[fv.Name()] = strings.TrimPrefix(strings.TrimPrefix(fr.Sub(res.Of(mc.Bindings[i]).String()), "~"), "&")
+						}
+					}
+				}
+				out = append(out, nf)
 			}
 		}
 	}
@@ -647,11 +669,7 @@ func frames(r *core.Run, anchor *ssa.Function) []frame {
 
 // Raw: the term of v in the anchor's vocabulary, memory markers kept.
 func (fr frame) Raw(r *core.Run, v ssa.Value) string {
-	t := r.Resolver(fr.Fn).Of(v).String()
-	if len(fr.subst) > 0 {
-		t = guard.SubstParams(t, fr.subst)
-	}
-	return t
+	return fr.Sub(r.Resolver(fr.Fn).Of(v).String())
 }
 
 // T: the normalised term of v in the anchor's vocabulary.
@@ -675,7 +693,15 @@ type deepCall struct {
 // Sub expresses a term of the frame's function in the anchor's vocabulary.
 func (fr frame) Sub(t string) string {
 	if len(fr.subst) > 0 {
-		return guard.SubstParams(t, fr.subst)
+		t = guard.SubstParams(t, fr.subst)
+	}
+	if len(fr.free) > 0 {
+		t = reFreeTok.ReplaceAllStringFunc(t, func(m string) string {
+			if v, ok := fr.free[reFreeTok.FindStringSubmatch(m)[1]]; ok {
+				return v
+			}
+			return m
+		})
 	}
 	return t
 }
